@@ -80,6 +80,9 @@ type Cmd struct {
 	// Applied is set on commands that are held by the reply gate: they have been executed, the
 	// reply has not been sent yet (a late reply: what the caller will see is already old).
 	Applied bool
+	// Partial > 0 on an insert that is held in the middle (see SetInsertSplit): its first Partial documents are
+	// stored and visible to every reader, the others are not yet.
+	Partial int
 
 	release chan struct{}
 }
@@ -154,6 +157,7 @@ type Server struct {
 	faultName   string
 	faultMsg    string
 	handshakes  int
+	insertSplit func(c *Cmd, ndocs int) int
 
 	// gmu guards the gate.
 	gmu         sync.Mutex
@@ -371,8 +375,39 @@ func (s *Server) handle(req *request, connID int) (reply bson.D, keep bool) {
 	}
 
 	s.mu.Lock()
-	reply = s.apply(cmd, dbName)
+	split := s.insertSplit
 	s.mu.Unlock()
+	splitDone := false
+	if verb == "insert" && split != nil {
+		if docs, ok := getDocs(cmd.Body, "documents"); ok {
+			if k := split(cmd, len(docs)); k > 0 && k < len(docs) {
+				// an insert of several documents is not atomic for readers: store the first k, wait, store the rest
+				ordered := isOrdered(cmd.Body)
+				s.mu.Lock()
+				n, werrs, stop := s.insertRange(cmd, docs, 0, k, ordered)
+				s.mu.Unlock()
+				if !stop {
+					cmd.Partial = k
+					s.holdPartial(cmd)
+					if s.isDone() {
+						finish("closed")
+						return nil, false
+					}
+					s.mu.Lock()
+					n2, w2, _ := s.insertRange(cmd, docs, k, len(docs), ordered)
+					s.mu.Unlock()
+					n, werrs = n+n2, append(werrs, w2...)
+				}
+				reply = insertReply(n, werrs)
+				splitDone = true
+			}
+		}
+	}
+	if !splitDone {
+		s.mu.Lock()
+		reply = s.apply(cmd, dbName)
+		s.mu.Unlock()
+	}
 
 	s.waitReplyGate(cmd)
 
@@ -499,6 +534,29 @@ func (s *Server) waitReplyGate(c *Cmd) {
 	case <-c.release:
 	case <-s.done:
 	}
+}
+
+// holdPartial blocks an insert between two of its documents until it is released (Release / DisableGate / Close).
+func (s *Server) holdPartial(c *Cmd) {
+	s.gmu.Lock()
+	c.release = make(chan struct{})
+	s.pending = append(s.pending, c)
+	s.gateSignalLocked()
+	s.gmu.Unlock()
+	select {
+	case <-c.release:
+	case <-s.done:
+	}
+}
+
+// SetInsertSplit installs a hook that may split an insert of several documents: when it returns k with
+// 0 < k < ndocs the first k documents are stored, the command then waits in Pending() (Partial = k) until it
+// is released, and only then stores the others. A real server inserts the documents of one insert command one
+// by one and, outside a multi-document transaction, every reader may see any prefix of them. nil = off.
+func (s *Server) SetInsertSplit(h func(c *Cmd, ndocs int) int) {
+	s.mu.Lock()
+	s.insertSplit = h
+	s.mu.Unlock()
 }
 
 // EnableReplyGate makes every later command for which filter returns true block AFTER it has been
